@@ -16,6 +16,9 @@ package c01
 //                       glyph repertoire (which may hold the whole alphabets the text touches,
 //                       so that real multi-code runs exist)
 //             identity  Type0 only: code = UTF-16 value of the (BMP) character
+//             scatter   a subset font whose codes are arbitrary distinct codes of the whole code
+//                       space (1..255 / 1..65535): what a producer that numbers glyphs by its
+//                       own glyph ids leaves behind; needs a ToUnicode CMap
 //             diff      Type1 or TrueType: codes handed out from a base, every one named in the
 //                       /Differences array of the /Encoding dictionary by its Adobe Glyph List
 //                       name (the custom encodings TeX and subsetters write); optionally the
@@ -30,6 +33,13 @@ package c01
 //             ranges in either form, single codes as bfchar or one-code ranges, sections in
 //             either order); sections of at most 100 entries, ranges never cross a high-byte
 //             boundary of the code nor overflow the low byte of the destination (9.10.3)
+//   lead      subset fonts with a ToUnicode CMap only: the codes of the first glyphs every line
+//             of the font begins with are chosen so that the BYTES of the shown string begin
+//             with what marks the encoding of a PDF *text string* (7.9.2.2: FE FF UTF-16BE;
+//             its little-endian mirror FF FE; PDF 2.0: EF BB BF UTF-8). The operand of Tj is
+//             not a text string but a sequence of character codes of the font (9.4.3): such
+//             bytes are codes like any other - the two-byte code <FEFF>, or the one-byte
+//             codes <FE> <FF> next to each other - and the ToUnicode CMap says what they show
 //   glyphs    single characters incl. supplementary-plane ones (surrogate pairs in the
 //             CMap) and, optionally, fi/fl/ffi ligature glyphs (one code -> several characters)
 //
@@ -44,6 +54,7 @@ package c01
 // with the text it was authored with. Every file also goes to the reader model (op c01.read).
 
 import (
+	"encoding/hex"
 	"fmt"
 	"os"
 	"sort"
@@ -63,8 +74,9 @@ type fontSpec struct {
 	CIDKind int    `json:"cid_kind"`  // Type0: 0 = CIDFontType0, 2 = CIDFontType2
 	Enc     string `json:"enc"`       // simple: "" (absent) | WinAnsiEncoding | MacRomanEncoding
 	EncDict bool   `json:"enc_dict"`  // simple: /Encoding is a dictionary with /BaseEncoding
-	Codes   string `json:"codes"`     // enc | first | sorted | identity | diff
-	Base    int    `json:"base"`      // first code of a first/sorted subset
+	Codes   string `json:"codes"`     // enc | first | sorted | identity | diff | scatter
+	Base    int    `json:"base"`      // first code of a first/sorted subset; scatter: the seed of the code assignment
+	Lead    string `json:"lead,omitempty"` // hex of the bytes every shown string of the font begins with ("" = whatever the code assignment gives)
 	ToUni   string `json:"tounicode"` // none | bfchar | bfrange | array | mixed
 	Blocks  bool   `json:"blocks"`    // the repertoire holds the whole alphabets the text touches
 	Ligs    bool   `json:"ligs"`      // ffi / fi / fl are single glyphs
@@ -250,6 +262,27 @@ func buildGlyphTable(fs fontSpec, texts []string) *glyphTable {
 		return rep
 	}
 	limit := 1<<(8*t.width) - 1
+	// codes fixed by the lead: taken out of the repertoire the code assignment works on
+	reserved := map[int]bool{}
+	if fs.Lead != "" && len(texts) > 0 {
+		lg, lc, ok := leadFor(fs, t.width, texts)
+		if !ok {
+			panic(fmt.Sprintf("c01 fonts: the lines of the font do not begin with %d distinct glyphs of their own (lead %s)", len(lc), fs.Lead))
+		}
+		isLead := map[string]bool{}
+		for i, g := range lg {
+			t.code[g] = lc[i]
+			reserved[lc[i]] = true
+			isLead[g] = true
+		}
+		rest := used[:0:0]
+		for _, g := range used {
+			if !isLead[g] {
+				rest = append(rest, g)
+			}
+		}
+		used = rest
+	}
 	switch fs.Codes {
 	case "enc":
 		for _, g := range used {
@@ -282,16 +315,32 @@ func buildGlyphTable(fs fontSpec, texts []string) *glyphTable {
 			}
 			t.code[g] = base + i
 		}
+	case "scatter":
+		// arbitrary distinct codes of the whole code space, 0 excepted
+		if len(used)+len(reserved) > limit {
+			panic("c01 fonts: more glyphs than codes")
+		}
+		cr := hx.NewRng(uint64(fs.Base)*0x9E3779B97F4A7C15 + 77)
+		taken := map[int]bool{}
+		for _, g := range used {
+			c := cr.Range(1, limit)
+			for taken[c] || reserved[c] {
+				c = cr.Range(1, limit)
+			}
+			taken[c] = true
+			t.code[g] = c
+		}
 	default: // first | sorted
 		rep := used
 		if fs.Blocks && fs.Codes == "sorted" {
 			rep = withBlocks()
 		}
 		base := fs.Base
-		if base+len(rep)-1 > limit {
+		// room for the codes the lead has taken: they are skipped
+		if base+len(rep)+len(reserved)-1 > limit {
 			rep = used
 		}
-		if base+len(rep)-1 > limit {
+		if base+len(rep)+len(reserved)-1 > limit {
 			base = 1
 		}
 		if fs.Codes == "sorted" {
@@ -304,8 +353,16 @@ func buildGlyphTable(fs fontSpec, texts []string) *glyphTable {
 				return len(a) < len(b)
 			})
 		}
-		for i, g := range rep {
-			t.code[g] = base + i
+		next := base
+		for _, g := range rep {
+			if _, has := t.code[g]; has { // a glyph of the lead (the blocks bring it back)
+				continue
+			}
+			for reserved[next] {
+				next++
+			}
+			t.code[g] = next
+			next++
 		}
 	}
 	for g, c := range t.code {
@@ -326,6 +383,62 @@ func (t *glyphTable) encode(text string, ligs bool) []byte {
 		out = append(out, byte(c))
 	}
 	return out
+}
+
+// leads are the byte prefixes that mark the encoding of a PDF text string (ISO 32000-1
+// 7.9.2.2, ISO 32000-2 7.9.2.2.1) plus the little-endian mirror of the first. In a shown
+// string they are character codes.
+var leads = []string{"feff", "fffe", "efbbbf"}
+
+// leadFor says which glyphs get which codes so that every shown string of the font begins
+// with the bytes fs.Lead: the glyphs are the first ones of the font's lines (the same in every
+// line, all different), the codes are the lead cut into codes of the font's width (an odd
+// last byte of a two-byte font is completed by a byte of fs.Base).
+func leadFor(fs fontSpec, width int, texts []string) (glyphs []string, codes []int, ok bool) {
+	m, err := hex.DecodeString(fs.Lead)
+	if err != nil || len(m) == 0 {
+		return nil, nil, false
+	}
+	if width == 1 {
+		for _, b := range m {
+			codes = append(codes, int(b))
+		}
+	} else {
+		for i := 0; i < len(m); i += 2 {
+			lo := byte(fs.Base)
+			if i+1 < len(m) {
+				lo = m[i+1]
+			}
+			codes = append(codes, int(m[i])<<8|int(lo))
+		}
+	}
+	if len(texts) == 0 {
+		return nil, codes, false
+	}
+	first := glyphsOf(texts[0], fs.Ligs)
+	if len(first) < len(codes) {
+		return nil, codes, false
+	}
+	glyphs = first[:len(codes)]
+	seen := map[string]bool{}
+	for _, g := range glyphs {
+		if seen[g] {
+			return nil, codes, false
+		}
+		seen[g] = true
+	}
+	for _, tx := range texts[1:] {
+		gs := glyphsOf(tx, fs.Ligs)
+		if len(gs) < len(codes) {
+			return nil, codes, false
+		}
+		for i, g := range glyphs {
+			if gs[i] != g {
+				return nil, codes, false
+			}
+		}
+	}
+	return glyphs, codes, true
 }
 
 // ---------------------------------------------------------------------------------------
@@ -906,8 +1019,11 @@ func genFontSpec(r *hx.Rng) fontSpec {
 		fs.Kind = "Type0"
 		fs.CIDKind = hx.Pick(r, []int{0, 2, 2})
 		fs.Enc = "Identity-H"
-		fs.Codes = hx.Pick(r, []string{"first", "sorted", "sorted", "identity"})
+		fs.Codes = hx.Pick(r, []string{"first", "sorted", "sorted", "identity", "scatter"})
 		fs.Base = hx.Pick(r, []int{1, 3, 0x20, 0xF0, 0x1F8, 0x3FF0})
+		if fs.Codes == "scatter" {
+			fs.Base = r.Intn(1 << 30)
+		}
 		fs.Ligs = fs.Codes != "identity" && r.Chance(1, 3)
 		return fs
 	}
@@ -925,7 +1041,10 @@ func genFontSpec(r *hx.Rng) fontSpec {
 		fs.Base = hx.Pick(r, []int{0x21, 0x30, 0x41})
 		fs.ToUni = hx.Pick(r, []string{"none", "none", "bfchar", "bfrange", "mixed"})
 	default: // a subset font: only the ToUnicode CMap gives the text
-		fs.Codes = hx.Pick(r, []string{"first", "sorted", "sorted"})
+		fs.Codes = hx.Pick(r, []string{"first", "sorted", "sorted", "scatter"})
+		if fs.Codes == "scatter" {
+			fs.Base = r.Intn(1 << 30)
+		}
 		fs.Ligs = r.Chance(1, 3)
 	}
 	if fs.Codes == "enc" && fs.Kind == "TrueType" && fs.Enc == "" {
@@ -956,6 +1075,37 @@ func genFontDoc(r *hx.Rng, tag string) fdoc {
 		}
 		d.Pages = append(d.Pages, pg)
 	}
+	// the lead: how the producer happened to number the glyphs the lines begin with
+	for i := range d.Fonts {
+		fs := &d.Fonts[i]
+		subset := fs.Codes == "first" || fs.Codes == "sorted" || fs.Codes == "scatter"
+		if !subset || fs.ToUni == "none" || !r.Chance(2, 5) {
+			continue
+		}
+		var texts []string
+		for _, pg := range d.Pages {
+			for _, l := range pg.Lines {
+				if l.Font == i {
+					texts = append(texts, l.Text)
+				}
+			}
+		}
+		width := 1
+		if fs.Kind == "Type0" {
+			width = 2
+		}
+		var fit []string
+		for _, ld := range leads {
+			probe := *fs
+			probe.Lead = ld
+			if _, _, ok := leadFor(probe, width, texts); ok {
+				fit = append(fit, ld)
+			}
+		}
+		if len(fit) > 0 {
+			fs.Lead = hx.Pick(r, fit)
+		}
+	}
 	return d
 }
 
@@ -983,6 +1133,9 @@ func genFontLayout(r *hx.Rng) flayout {
 // carries kind, codes and encoding).
 func fontClass(fs fontSpec) string {
 	switch {
+	case fs.ToUni != "none" && fs.Lead != "":
+		// the shown strings begin with bytes that would mark a text string's encoding
+		return "tounicode-lead-" + fs.Lead
 	case fs.ToUni != "none":
 		return "tounicode-" + fs.ToUni
 	case fs.Codes == "diff":
@@ -1123,6 +1276,13 @@ func countFontCase(c *hx.Ctx, k fcase) {
 			c.Count(fmt.Sprintf("font:differences kind=%s superseded-run=%v unknown-names=%v", fs.Kind, fs.Extra&1 != 0, fs.Extra&2 != 0))
 		}
 		c.Count(fmt.Sprintf("font:ligatures=%v", fs.Ligs))
+		if fs.ToUni != "none" && fs.Codes != "enc" && fs.Codes != "diff" && fs.Codes != "identity" {
+			ld := fs.Lead
+			if ld == "" {
+				ld = "none"
+			}
+			c.Count(fmt.Sprintf("font:lead (bytes every shown string of a subset font begins with) width=%d %s", map[bool]int{false: 1, true: 2}[fs.Kind == "Type0"], ld))
+		}
 	}
 	lay := k.Layout
 	c.Count(fmt.Sprintf("font:fonts-per-doc=%d", len(k.Doc.Fonts)))
